@@ -36,6 +36,20 @@ def loader_cases():
     return out
 
 
+def chain_cases():
+    """depths add up at run time: a plain chain of 150 different macros (no recursion), each printing an expression nested 9000
+    parentheses deep (below the parser's bound) - the execution ends with output or an error, not with the process"""
+    deep = "(" * 9000 + "1" + ")" * 9000
+    src = "".join("{%% macro m%d() %%}{{ %s }}{{ _self.m%d() }}{%% endmacro %%}" % (i, deep if i % 2 else "1", i + 1) for i in range(150))
+    src += "{% macro m150() %}x{% endmacro %}{{ _self.m0() }}"
+    # the nesting must sit on the call path: every macro prints (((...m_next()...)))
+    src2 = "".join("{%% macro m%d() %%}{{ %s_self.m%d()%s }}{%% endmacro %%}" % (i, "(" * 9000, i + 1, ")" * 9000) for i in range(150))
+    src2 += "{% macro m150() %}x{% endmacro %}{{ _self.m0() }}"
+    return [{"id": "C02-chain-%d" % i, "k": "render", "env": env, "srcs": {"main": list(sx.encode())}, "entry": "main", "ctx": {},
+             "nolog": True, "fam": "chain", "x": {"form": "macro-chain"}, "tpls": {}}
+            for i, (env, sx) in enumerate([("core", src2), ("twig", src2), ("core", src)])]
+
+
 def check(run, only=None):
     run.rule = ("ops: 25 binary operators and 36 other forms (unary, conditional, tests, attribute/method access with right and wrong "
                 "arity, calls, filters, for with and without key/inline condition, ranges, if, set, interpolation, array/hash "
@@ -52,7 +66,7 @@ def check(run, only=None):
         vecs = only
     else:
         r = common.run_tlc("C02", "C02_thorough" if run.tier == "thorough" else "C02", env={"VERIF_SEED": run.seed}, timeout=3000, heap="10g")
-        vecs = r["lines"] + loader_cases()
+        vecs = r["lines"] + loader_cases() + chain_cases()
     obs, hooks = common.run_pool(vecs, deadline_ms=10000)
     run.hooks = hooks
     for v in vecs:
